@@ -375,13 +375,24 @@ def constructors_and_send(run, viol):
     cases = factory_cases(run)
     run.count("constructor_calls", len(cases))
     built = [lib.guarded(build_factory, k, a) for k, a in cases]
+    # the model sees every small call; of the long Text arguments (0.2-0.9 s each in the extracted model) the quick tier
+    # sends the three 65535/65536-byte ones below and a sample, the thorough tier all (the oracle below judges ALL)
+    large = [i for i, (k, a) in enumerate(cases) if k == 4 and a and len(a[0]) > 2000]
+    if not run.thorough():
+        fixed = [i for i in large if cases[i][1][0] in ("a" * 65536, "é" * 32768, "€" * 21845)]
+        drop = set(large) - set(fixed) - set(r.sample(large, min(len(large), 9)))
+    else:
+        drop = set()
+    sel = [i for i in range(len(cases)) if i not in drop]
     impl, margs = [], []
-    for (k, a), b in zip(cases, built):
+    for i in sel:
+        (k, a), b = cases[i], built[i]
         impl.append(lib.guarded(lambda f=b[1]: [frame_obs(f), lib.guarded(write_frame, f)]) if b[0] == 0 else b)
         margs.append(factory_margs(k, a))
     mod = []
     for i in range(0, len(margs), 40):
         mod += M.call_many("ws_factory", margs[i:i + 40])
+    run.count("constructor_calls_through_model", len(sel))
 
     def desc(c):
         k, a = c
@@ -391,7 +402,7 @@ def constructors_and_send(run, viol):
         elif a:
             d.update(bytes=len(a[-1]) if k != 3 or len(a) > 1 else 0, status=a[0] if k == 3 else None)
         return d
-    run.compare("ws_factory", cases, impl, mod, describe=desc)
+    run.compare("ws_factory", [cases[i] for i in sel], impl, mod, describe=desc)
     from mpgameserver.http_server import WebSocketFrame
     dflt = [frame_obs(getattr(WebSocketFrame, n)()) for n in KINDS]
     mdf = M.call("ws_defaults", [])
@@ -429,6 +440,7 @@ def constructors_and_send(run, viol):
         if not (p[0][0] == 0 and p[1] == b"tail" and p[0][1][:6] == [1, 0, 0, 0, op, 0] and p[0][1][7:] == [len(pay), pay]):
             viol("constructor-frame-does-not-round-trip", key, d, "WebSocketFrame." + KINDS[k] + " + readFrame")
     k0 = next(i for i, (k, a) in enumerate(cases) if k == 4 and a and a[0] == "€" * 42)
+    k0 = sel.index(k0)
     run.sample({"unit": "ws_factory", "call": "Text('€' * 42)", "impl": lib.jsonable(impl[k0][1][1][1][:8]) if impl[k0][0] == 0 else impl[k0]})
 
     # ---- handler.send / handler.close histories on ONE handler
@@ -455,6 +467,10 @@ def constructors_and_send(run, viol):
     run.count("send_histories", len(hist))
     hres = [impl_out(c, ops) for c, ops in hist]
     typed = [i for i, (c, ops) in enumerate(hist) if all(op[0] == 1 or isinstance(op[1], str) for op in ops)]
+    if not run.thorough():      # long texts: a sample through the model (the oracle below judges all histories)
+        lg = [i for i in typed if any(op[0] == 0 and len(op[1]) > 2000 for op in hist[i][1])]
+        keep = set(r.sample(lg, min(len(lg), 6)))
+        typed = [i for i in typed if i not in lg or i in keep]
     hmod = []
     for i in range(0, len(typed), 60):
         hmod += M.call_many("ws_out", [[hist[j][0], [[0, [ord(ch) for ch in op[1]]] if op[0] == 0 else [1] for op in hist[j][1]]]
